@@ -321,9 +321,18 @@ def decorate(tp: Tape, m: Model, p_atom=150, p_bond=80, none_parity=0,
                               allow2=False)
                 if d is not None:
                     ch[r] = d
+            same_nbrs = all(states[r][a] == ts[a] for r in ROLES)
+            if len(ch) >= 2 and same_nbrs and tp.chance(50):
+                # the very same descriptor in several roles
+                first = next(iter(ch.values()))
+                ch = {r: first for r in ch}
             if ch:
                 m.set_atom_change(**ch)
             if not tp.chance(20):
+                continue
+            if ch and not changed and tp.chance(128):
+                # ... and as the static descriptor as well
+                m.set_atom_stereo(next(iter(ch.values())))
                 continue
         if not changed and tp.chance(p_atom):
             d = atom_desc(tp, a, sorted(ts[a]), none_parity,
@@ -394,6 +403,10 @@ def shuffled_recipe(tp: Tape, m: Model):
     for b in r["bonds"]:
         if tp.chance(128):
             b[0], b[1] = b[1], b[0]
+    if tp.chance(70):
+        r["alias"] = True       # equal descriptors are one shared object
+    if r["cls"] == "SCRG" and tp.chance(90):
+        r["changes_first"] = True   # stereo changes set before static stereo
     return r
 
 
